@@ -217,12 +217,13 @@ fn main() {
                         for g in chunk {
                             let irrd = start_live_dribble(IrrDb::from_json(&g["irr"]), false, g["irr"]["dribble"].as_u64().unwrap_or(0) as usize);
                             for c in g["cases"].as_array().into_iter().flatten() {
-                                let mut child = std::process::Command::new(&bin)
-                                    .args(["-H", "127.0.0.1", "-P", &irrd.port.to_string(), "-q", c["expr_str"].as_str().unwrap_or("")])
+                                let mut cmd = std::process::Command::new(&bin);
+                                cmd.args(["-H", "127.0.0.1", "-P", &irrd.port.to_string(), "-q", c["expr_str"].as_str().unwrap_or("")])
                                     .stdout(std::process::Stdio::piped())
-                                    .stderr(std::process::Stdio::piped())
-                                    .spawn()
-                                    .expect("spawn bgpfu");
+                                    .stderr(std::process::Stdio::piped());
+                                // (some evaluations never end: if this harness is stopped from outside, the command goes with it)
+                                vh::util::die_with_parent_std(&mut cmd);
+                                let mut child = cmd.spawn().expect("spawn bgpfu");
                                 // watchdog
                                 let started = std::time::Instant::now();
                                 let status = loop {
